@@ -359,8 +359,11 @@ def run():
             viol('enumerator set differs', enum=e['py'], expected=sorted(n for n, _ in e['vals']), actual=sorted(members))
     for a in plan['attrs']:
         try:
-            resolve(a['py'])
+            v = resolve(a['py'])
             OUT['checked'] += 1
+            if a.get('value') is not None and (v != a['value'] or type(v) is not type(a['value'])):
+                viol('module variable has another value than the C++ variable / its initialiser', path=a['py'],
+                     expected=a['value'], actual=repr(v))
         except AttributeError:
             viol('module attribute missing', path=a['py'])
     # classes in declaration order
